@@ -414,8 +414,8 @@ def run(ctx):
     long_data = {tuple(rng.choice((0, 1, 2, 3, 4)) for _ in range(n)) for n in (5, 6, 7, 8) for _ in range(ctx.pick(1, 3))}
     long_data |= {(3, 3, 1), (2, 1, 0, 1, 1)}                   # the probe witnesses of DESIGN.md §7.2
     cases = enumerate_pct(ctx, ctx.pick(2, 3), ctx.pick(4, 5), sorted(long_data))
-    recs, total, sampled = pct_records(ctx, cases, ctx.pick(6000, 150000))
-    nrand = ctx.pick(1000, 20000)
+    recs, total, sampled = pct_records(ctx, cases, ctx.pick(6000, 90000))
+    nrand = ctx.pick(1000, 10000)
     recs += [random_pct(rng, i) for i in range(nrand)]
     good = decide_pct(ctx, recs)
     for r in good[:1] + good[-1:]:
@@ -425,7 +425,7 @@ def run(ctx):
     ncases = enumerate_nan(ctx, fills)
     pairs = [(c, ch) for c in ncases for ch in c["c"]["chunkings"]]
     ntotal = len(pairs)
-    ncap = ctx.pick(3000, 60000)
+    ncap = ctx.pick(3000, 40000)
     nsampled = ntotal > ncap
     if nsampled:
         pairs = rng.sample(pairs, ncap)
